@@ -92,6 +92,7 @@ def match_row(exp, got):
 def run_case(case):
     mode = case['family']
     rng = boot.rng(case['seed'], 'C11', case['idx'])
+    r3 = boot.rng(case['seed'], 'C11', 'round4', case['idx'])
     d = lab.df()
     counters = {'target_rows_compared': 0, 'aggregates_compared': 0}
     cov = {'agg_x_mode': {}, 'key_shape': {}}
@@ -111,7 +112,7 @@ def run_case(case):
             r['k'] = i if i < nkeys else rng.randrange(nkeys)
     # key shape
     shape = rng.choice(['list_same', 'list_diff', 'composite', 'fmt_literal', 'rownum', 'fmt_rownum', 'equal_but_distinct',
-                        'fmt_spec', 'list_odd_name'])
+                        'fmt_spec', 'list_odd_name', 'composite_sep'])
     if spill:
         shape = rng.choice(['list_same', 'fmt_literal'])
     if mode == 'dedup' and shape in ('list_diff', 'rownum', 'fmt_rownum'):
@@ -123,17 +124,22 @@ def run_case(case):
         shape = 'list_same'
     fspec = rng.choice([':03', '!s', ':>4', '!r:>5'])
     tk_names = {'list_same': ['k'], 'list_diff': ['tk'], 'composite': ['k', 'k2'], 'fmt_literal': ['tk'],
-                'rownum': [], 'fmt_rownum': ['tk'], 'equal_but_distinct': ['k'], 'fmt_spec': ['tk']}[shape]
+                'rownum': [], 'fmt_rownum': ['tk'], 'equal_but_distinct': ['k'], 'fmt_spec': ['tk'],
+                'composite_sep': ['k2', 's']}[shape]
     source_key = {'list_same': ['k'], 'list_diff': ['k'], 'composite': ['k', 'k2'],
                   'fmt_literal': 'K-{k}', 'rownum': ['#'], 'fmt_rownum': '{#}', 'equal_but_distinct': ['k'],
-                  'fmt_spec': 'K-{k%s}' % fspec}[shape]
+                  'fmt_spec': 'K-{k%s}' % fspec, 'composite_sep': ['k2', 's']}[shape]
     target_key = {'list_same': ['k'], 'list_diff': ['tk'], 'composite': ['k', 'k2'],
                   'fmt_literal': '{tk}', 'rownum': ['#'], 'fmt_rownum': '{tk}', 'equal_but_distinct': ['k'],
-                  'fmt_spec': '{tk}'}[shape]
+                  'fmt_spec': '{tk}', 'composite_sep': ['k2', 's']}[shape]
     if shape == 'fmt_spec':
         for r in S:         # a format spec cannot render null
             if r['k'] is None:
                 r['k'] = 0
+    if shape == 'composite_sep':
+        # parts that contain the character a naive rendering would join them with: ('x:y', 'z') is not ('x', 'y:z')
+        for r in S:
+            r['k2'], r['s'] = rng.choice([('x:y', 'z'), ('x', 'y:z'), ('x', 'z'), ('x:y', 'y:z')])
     if shape == 'equal_but_distinct':
         # key values that compare (and hash) equal but RENDER differently are different keys
         EQ = [D('1'), D('1.0'), D('1.00'), 1, 1.0, True, D('2'), 2]
@@ -155,6 +161,8 @@ def run_case(case):
         elif shape == 'composite':
             row['k'] = kv
             row['k2'] = rng.choice(['x', 'y', 'zz', 'w'])
+        elif shape == 'composite_sep':
+            row['k2'], row['s'] = rng.choice([('x:y', 'z'), ('x', 'y:z'), ('x', 'z'), ('q', 'q')])
         elif shape == 'fmt_literal':
             row['tk'] = 'K-%s' % kv
         elif shape == 'fmt_spec':
@@ -164,7 +172,7 @@ def run_case(case):
         T.append(row)
     t_fields = [('tid', 'integer'), ('keep', 'string')] + \
                [(n, {'k': 'integer' if shape != 'equal_but_distinct' else 'any', 'k2': 'string'}.get(
-                   n, 'string' if shape in ('fmt_literal', 'fmt_spec') else 'integer')) for n in tk_names]
+                   n, 'string' if shape in ('fmt_literal', 'fmt_spec', 'composite_sep') else 'integer')) for n in tk_names]
     # fields mapping
     fields, ref_fields = {}, {}
     naggs = rng.randint(1, 4)
@@ -196,13 +204,18 @@ def run_case(case):
         ref_fields['w'] = {'name': 'w', 'aggregate': shared['aggregate'], '_name_given': True}
         cov['key_shape']['mapping_entries_sharing_one_spec_object'] = 1
     wildcard = rng.random() < 0.15
+    if wildcard and r3.random() < 0.5 and mode != 'dedup' and not pre_existing:
+        # the explicit entry wins over the wildcard: target field 'v' takes source field 'w' here
+        fields['v'] = {'name': 'w', 'aggregate': 'max'}
+        ref_fields['v'] = {'name': 'w', 'aggregate': 'max', '_name_given': True}
+        cov['key_shape']['explicit_target_named_like_a_source_field_plus_wildcard'] = 1
     if wildcard:
         # type-preserving aggregates only: '*' maps source fields onto same-named target fields
         wagg = rng.choice(['first', 'last', 'any'] + (['array'] if mode == 'dedup' else []))
         fields['*'] = {'aggregate': wagg}
         used = {s['name'] for s in ref_fields.values()}
         for n, _ in SRC_FIELDS:
-            if n not in used:
+            if n not in used and n not in ref_fields:
                 ref_fields[n] = {'name': n, 'aggregate': wagg, '_name_given': True}
     if rng.random() < 0.15:
         # plain pass-through mapping: {'s': None}  == any value of source field 's'
@@ -238,6 +251,11 @@ def run_case(case):
         cov['key_shape']['list_odd_name'] = 1
     # the SAME key / fields objects are handed to the step twice (second use): a step must not corrupt its arguments
     second_use = boot.rng(case['seed'], 'C11', 'reuse', case['idx']).random() < 0.2 and not spill
+    positional_mode = mode != 'dedup' and r3.random() < 0.2
+    rerun = r3.choice([None, None, None, None, 'after_success', 'after_failure']) if not spill and not second_use else None
+    if positional_mode:
+        cov['key_shape']['mode_passed_positionally'] = 1
+        cfg['mode_passed_positionally'] = True
 
     # the source stays in the package and a later step reads only its first two rows: the join still sees every source row
     partial = mode != 'dedup' and not source_delete and not spill and \
@@ -263,10 +281,34 @@ def run_case(case):
         if mode == 'dedup':
             return [lab.source('src', sf, S),
                     d.join_with_self('src', copy.deepcopy(source_key), copy.deepcopy(fields))]
+        if positional_mode:
+            # the documented signature: join(source_name, source_key, target_name, target_key, fields, mode, source_delete)
+            return [lab.source('src', sf, S), lab.source('tgt', gen.schema_fields(t_fields), T),
+                    d.join('src', copy.deepcopy(source_key), 'tgt', copy.deepcopy(target_key),
+                           copy.deepcopy(fields), mode, source_delete=source_delete)]
         return [lab.source('src', sf, S), lab.source('tgt', gen.schema_fields(t_fields), T),
                 d.join('src', copy.deepcopy(source_key), 'tgt', copy.deepcopy(target_key),
                        copy.deepcopy(fields), mode=mode, source_delete=source_delete)]
-    if second_use:
+    if rerun:
+        # the same Flow object is executed again - after a first execution that completed, or one that a later step
+        # aborted half way: the join starts from an empty index every time
+        cov['key_shape']['same_flow_object_executed_again/' + rerun] = 1
+        cfg['rerun'] = rerun
+        state = {'armed': rerun == 'after_failure'}
+
+        def flaky(rows):
+            for n_, row in enumerate(rows):
+                if state['armed'] and n_ == 0:
+                    state['armed'] = False
+                    raise ConnectionError('transient failure in a later step (first execution only)')
+                yield row
+        lab.second_run(True)
+        try:
+            steps = build() + ([flaky] if rerun == 'after_failure' else [])
+            got = lab.run(steps)
+        finally:
+            lab.second_run(False)
+    elif second_use:
         cov['key_shape']['second_use_of_the_same_argument_objects'] = 1
         cfg['second_use'] = True
         with lab.arg_reuse('record'):
@@ -275,7 +317,8 @@ def run_case(case):
             steps = build()
     else:
         steps = build()
-    got = lab.run(steps)
+    if not rerun:
+        got = lab.run(steps)
     sample = {'config': cfg, 'source': gen.render(S[:5], 500), 'target': gen.render(T[:5], 400)}
 
     def classify():
